@@ -64,6 +64,17 @@ PYTHONHASHSEED values for shared peptides (reproduced with a hand-built confiden
 def outsideObservableSites : List (String × String × String) :=
   [ ("_format_flashlfq", "shared_peptides:get", "FlashLFQ export: not an observable of C08 (brew / assign_confidence files / read_fasta maps), unreachable from assign_confidence; reported as a side finding") ]
 
+/-- calls of a callable of the package that takes the seeded generator as an OPTIONAL argument (`rng=None`: a new
+generator from OS entropy) and leave it out (kind `rng-default`, second pass): accounted for only when the object
+made never draws from its generator.  NOT listed — and rejected by the rule, `C08_rule_rejects_unseeded_objects` — is
+`brew`'s former `PercolatorModel()` (brew.py:110 before the repair of D39): that constructor DOES draw
+(`rng.integers`, model.py:436: the seed of the grid search's cross-validation), see `Props/C08Seed.lean` and
+`Mutants/Determ.lean: defaultModel_violates`. -/
+def unusedGeneratorSites : List (String × String × String) :=
+  [ ("_create_psms", "LinearPsmDataset:<omitted>", "PsmDataset.rng is stored (dataset.py:94, 171-174) and never drawn from: the only draw of dataset.py is `rng.shuffle` in `_split`, on the generator `brew` passes in as an argument"),
+    ("read_pepxml", "LinearPsmDataset:<omitted>", "as above"),
+    ("load_model", "Model:<omitted>", "`Model.__init__` makes no draw; a loaded Percolator model is trained: in a list it only predicts, as a single model `brew` replaces its generator before the first draw (`model.rng = rng`, brew.py:121)") ]
+
 /-- functions that read a clock for log messages only -/
 def clockFuncs : List String := ["output_start_message", "output_end_message", "make_timer", "elapsed", "main"]
 
@@ -84,6 +95,8 @@ def accounted (e : Effect) : Bool :=
   else if e.kind == "dir-order" then e.seeded                -- directory listings: `sorted(glob(..))` or `len(list(glob(..)))` only
   else if e.kind == "thread-order" then siteListed threadOrderSites e
   else if e.kind == "map-value" then siteListed outsideObservableSites e   -- hash-ordered value strings: keys / membership only
+  else if e.kind == "rng-default" then siteListed unusedGeneratorSites e   -- `rng` left out where the default is OS entropy
+  else if e.kind == "random-state" then e.seeded             -- third-party `random_state=`: not None, not missing with `shuffle=True`
   else if e.kind == "clock" then clockFuncs.contains e.func
   else false                                                 -- stdlib random, hash()/id(), parse errors, anything new
 
@@ -132,6 +145,24 @@ theorem C08_rule_rejects_new_order_sources :
     accounted ⟨"mokapot/picked_protein.py", "group_with_decoys", 1, "map-order", "raw:peptide_map", false⟩ = false ∧
     -- the value strings of shared_peptides (hash-ordered '; '-joined sets) used for a protein group
     accounted ⟨"mokapot/picked_protein.py", "group_with_decoys", 1, "map-value", "shared_peptides:get", false⟩ = false := by decide
+
+/-- the inventory contains the seed sources added with the second pass (`random_state=` of third-party objects,
+package callables called without their optional `rng`) — the rule is exercised on them -/
+theorem C08_inventory_nonvacuous_seeds :
+    (effects.any (fun e => e.kind == "random-state")) = true ∧
+    (effects.any (fun e => e.kind == "rng-default")) = true ∧
+    (effects.any (fun e => e.kind == "rng-new" && e.seeded)) = true := by decide
+
+/-- the second-pass rule has teeth: `PercolatorModel()` without a generator (the defect D39 repaired in /repo), a
+`Model(...)` built without one inside `brew`, `rng=None` spelled out, a `KFold` with `random_state=None` or with
+`shuffle=True` and no `random_state`, and `default_rng()` / `default_rng(None)` are all rejected -/
+theorem C08_rule_rejects_unseeded_objects :
+    accounted ⟨"mokapot/brew.py", "brew", 110, "rng-default", "PercolatorModel:<omitted>", false⟩ = false ∧
+    accounted ⟨"mokapot/brew.py", "brew", 110, "rng-default", "Model:<omitted>", false⟩ = false ∧
+    accounted ⟨"mokapot/confidence.py", "_assign_confidence", 1, "rng-default", "match_decoy:None", false⟩ = false ∧
+    accounted ⟨"mokapot/model.py", "__init__", 436, "random-state", "KFold:None", false⟩ = false ∧
+    accounted ⟨"mokapot/model.py", "__init__", 436, "random-state", "KFold:<omitted>", false⟩ = false ∧
+    accounted ⟨"mokapot/model.py", "__init__", 430, "rng-new", "np.random.default_rng", false⟩ = false := by decide
 
 /-- Feeding the models of one run back in any order: `brew` sorts them by their fold tag, so
 every permutation of a list with pairwise distinct tags yields the same model list. -/
